@@ -1,9 +1,20 @@
 """C17 — server-embedded translations survive embedding into the page.
-Theorems: lean/I18nVerif/Theorems/C17.lean.  Correspondence: harness runtime_dyn_h (`embed`: the real
-`RegisterCtx::{provide_context, register, to_array}` under `dynamic_load`+`ssr`, several concurrent renders,
-strings supplied by the request) vs the Lean model `Escape.registered` / `Escape.toArray`; property oracle
-`Spec.embedOk` (strict script reader + HTML script-safety) evaluated by the Lean driver on the
-implementation's script; `serde_json` in the harness cross-checks the Lean reader."""
+Theorems: lean/I18nVerif/Theorems/C17.lean.  Two modes, both on harness runtime_dyn_h (`dynamic_load`+`ssr`):
+
+1. `embed` — arbitrary strings: the real `RegisterCtx::{provide_context, register, to_array}` driven through
+   hand-written `TranslationUnit`s whose strings come from the request, several concurrent renders, vs the Lean
+   model `Escape.registered` / `Escape.toArray`; property oracle `Spec.embedOk` (strict script reader + HTML
+   script-safety) evaluated by the Lean driver on the implementation's script; `serde_json` in the harness
+   cross-checks the Lean reader.
+2. `render_real` — real renders: the accessors *generated* by `load_locales!()` from the harness's own `locales/`
+   (`t_string!`, `t_display!`, `td_string!` evaluated eagerly while the children are built, `t!` views evaluated
+   when the page is rendered; all reach the generated `get_translations()`) inside the *generated*
+   `<I18nContextProvider>`; several renders one after the other in the same process.  The `<script>` of each
+   rendered page is judged by the same oracle against the units that render touched (strings = the content of
+   the locale files), plus: one script per page, every accessor's text is in its unit's list and equals the file's
+   text, a unit has the same strings in every render.  Signatures `embed:real-render-*`."""
+import html as _html
+import re as _re
 from .common import *
 
 RULE = ("translation strings built from a pool of awkward characters (quotes, backslash, slash, < > & ', LF CR TAB, "
@@ -12,7 +23,15 @@ RULE = ("translation strings built from a pool of awkward characters (quotes, ba
         "words; unit sets over a namespaced project (3 locales x 3 namespaces) and a flat one (3 locales, id null); "
         "1-3 concurrent renders with interleaved, repeated registrations, registrations before the context exists, "
         "defined-but-untouched units; non-trivial = the render registered at least one unit holding at least one "
-        "string that needs escaping or is non-ASCII; distinct = distinct (render history, strings) pairs")
+        "string that needs escaping or is non-ASCII; distinct = distinct (render history, strings) pairs.  "
+        "Real renders (generated accessors inside the generated <I18nContextProvider>, strings from the harness's locale "
+        "files: 3 locales x 3 namespaces x 3 keys with quotes, backslash, </script>, <!--, LF, TAB, U+2028, non-ASCII): "
+        "requests of 1-4 renders run one after the other in one process, 0-5 accesses per render, each access = "
+        "(namespace, locale, how) with how in eager_string (t_string!), eager_display (t_display!), td_string (td_string!) "
+        "- evaluated while the provider's children are built - and reactive_view (t! evaluated when the page is rendered); "
+        "units drawn mostly from a small per-request pool so that renders repeat units of earlier renders, units touched "
+        "only eagerly / only reactively / both, renders touching nothing; non-trivial = the render touched at least one "
+        "unit; distinct = distinct (earlier renders of the request, this render)")
 
 NASTY = (['"', '\\', '/', '<', '>', '&', "'", '\n', '\r', '\t'] + [chr(i) for i in range(0x20)] + ['\x7f']
          + [chr(i) for i in range(0x80, 0xa0)]
@@ -92,14 +111,8 @@ def judge(ctx, case, hist, r, m):
     out = r["out"]
     if not m["spec_ok_model"]:
         raise HarnessError("model violates its own proved specification: " + json.dumps(case, ensure_ascii=False))
-    # cross-check of the Lean reader by serde_json (serde also accepts raw U+2028/U+2029, the Lean js reader does not)
     sd, ld = r["serde"], m["spec_decode_impl"]
-    if ld is not None and "ok" not in sd:
-        raise HarnessError("Lean reader accepts a script serde_json rejects: " + json.dumps(out))
-    if ld is not None and sd["ok"] != ld:
-        raise HarnessError("Lean reader and serde_json decode differently: " + json.dumps(out))
-    if ld is None and "ok" in sd and "\u2028" not in out and "\u2029" not in out:
-        raise HarnessError("serde_json accepts a script the Lean reader rejects: " + json.dumps(out))
+    cross_check_readers(out, sd, ld)
     spec_bad = None
     if not m["spec_ok_impl"]:
         if not m["script_safe_impl"]:
@@ -215,6 +228,269 @@ def get_names(ctx, binr):
     return EXPECTED_NAMES
 
 
+# ------------------------------------------------------------------------------------------------
+# real renders: generated accessors inside the generated <I18nContextProvider>
+
+HOWS = ["eager_string", "eager_display", "reactive_view", "td_string"]
+EAGER = {"eager_string", "eager_display", "td_string"}
+SCRIPT_PREFIX = "window.__LEPTOS_I18N_TRANSLATIONS = "
+REAL_KEY = "k"
+
+
+def real_files(names):
+    """(locale index, namespace index) -> the unit as configured: names, the text of the accessed key, and the unit's
+    strings = the values of the locale file in key order (what `load_locales!` puts into `STRINGS` for plain strings)"""
+    out = {}
+    for li, loc in enumerate(names["ns_locales"]):
+        for ni, ns in enumerate(names["ns_ids"]):
+            with open(os.path.join(HARNESS_DIR, "runtime_dyn_h", "locales", loc, ns + ".json"), encoding="utf-8") as f:
+                d = json.load(f)
+            out[(li, ni)] = {"locale": loc, "id": ns, "text": d[REAL_KEY], "values": [d[k] for k in sorted(d)]}
+    return out
+
+
+def gen_real(rng):
+    pool = [(rng.below(3), rng.below(3)) for _ in range(rng.range(1, 3))]
+    hows = HOWS if not rng.chance(1, 4) else [rng.pick(HOWS)]
+    renders = []
+    for _ in range(rng.range(1, 4)):
+        acc = []
+        for _ in range(rng.weighted([(2, 0), (5, 1), (4, 2), (3, 3), (1, 4), (1, 5)])):
+            (l, n) = rng.pick(pool) if not rng.chance(1, 5) else (rng.below(3), rng.below(3))
+            acc.append({"ns": n, "locale": l, "how": rng.pick(hows)})
+        renders.append(acc)
+    return {"real": True, "renders": renders}
+
+
+def _acc(n, l, how):
+    return {"ns": n, "locale": l, "how": how}
+
+
+REAL_CORPUS = [{"real": True, "renders": r} for r in (
+    [[]],
+    # a unit read only eagerly, while the children are built
+    [[_acc(0, 0, "eager_string")]], [[_acc(1, 1, "eager_display")]], [[_acc(2, 2, "td_string")]],
+    [[_acc(2, 0, "eager_string"), _acc(1, 0, "reactive_view")]],
+    # the same unit in consecutive renders of one process
+    [[_acc(1, 0, "reactive_view")], [_acc(1, 0, "reactive_view")]],
+    [[_acc(2, 1, "eager_string")], [], [_acc(2, 1, "td_string"), _acc(0, 1, "reactive_view")], [_acc(2, 1, "reactive_view")]],
+    [[_acc(n, l, HOWS[(n + l) % 4]) for l in range(3) for n in range(3)][:5], [_acc(n, l, HOWS[(n + 2 * l) % 4]) for n in range(3) for l in range(3)][4:9]],
+)]
+# every (namespace, locale, how) alone, as the first render of a process and again as the second
+REAL_CORPUS += [{"real": True, "renders": [[_acc(n, l, h)], [_acc(n, l, h)]]} for n in range(3) for l in range(3) for h in HOWS]
+
+
+def real_touched(files, accesses):
+    return [{"locale": files[(a["locale"], a["ns"])]["locale"], "id": files[(a["locale"], a["ns"])]["id"],
+             "values": files[(a["locale"], a["ns"])]["values"]} for a in accesses]
+
+
+def page_texts(html_text, n):
+    """the text of `<span id="a{i}">` for i < n, as a browser shows it (None when the element is not there)"""
+    out = []
+    for i in range(n):
+        m = _re.search(r'<span id="a%d">(.*?)</span>' % i, html_text, _re.S)
+        out.append(None if m is None else _html.unescape(_re.sub(r"<!--.*?-->|<!>", "", m.group(1), flags=_re.S)))
+    return out
+
+
+def cross_check_readers(out, sd, ld):
+    """the Lean reader against serde_json (serde also accepts raw U+2028/U+2029, the Lean js reader does not)"""
+    if ld is not None and "ok" not in sd:
+        raise HarnessError("Lean reader accepts a script serde_json rejects: " + json.dumps(out))
+    if ld is not None and sd["ok"] != ld:
+        raise HarnessError("Lean reader and serde_json decode differently: " + json.dumps(out))
+    if ld is None and "ok" in sd and "\u2028" not in out and "\u2029" not in out:
+        raise HarnessError("serde_json accepts a script the Lean reader rejects: " + json.dumps(out))
+
+
+def judge_real(files, case, ri, rr, m, memo):
+    """one rendered page against the property.  Returns (problems, model_bad): problems = [(signature suffix, why)].
+    `memo`: unit key -> strings it had in an earlier render."""
+    accesses = case["renders"][ri]
+    touched = real_touched(files, accesses)
+    probs = []
+    scripts = [s for s in rr["scripts"] if SCRIPT_PREFIX.strip() in s or "__LEPTOS_I18N_TRANSLATIONS" in s]
+    if len(rr["scripts"]) != 1 or len(scripts) != 1:
+        probs.append(("script-count", "the page must hold exactly one <script> element, the one assigning "
+                      "window.__LEPTOS_I18N_TRANSLATIONS; found %d script element(s)" % len(rr["scripts"])))
+        return probs, None
+    if m is None:
+        raise HarnessError("no Lean verdict for a page with one script")
+    if not m["spec_ok_model"]:
+        raise HarnessError("model violates its own proved specification: " + json.dumps(case, ensure_ascii=False))
+    out = scripts[0]
+    ld = m["spec_decode_impl"]
+    cross_check_readers(out, rr["serde"][0], ld)
+    want = {}
+    for u in touched:
+        want[(u["locale"], u["id"])] = u["values"]
+    mine = []           # the comparison spelled out here (finer signatures); must agree with Spec.embedOk
+    if not m["script_safe_impl"]:
+        mine.append(("script-unsafe", "the script text contains </script or <!--"))
+    if ld is None:
+        mine.append(("not-decodable", "the script is not `window.__LEPTOS_I18N_TRANSLATIONS = [ {locale,id,values}.. ];`"))
+    else:
+        got_keys = [(u["locale"], u["id"]) for u in ld]
+        for k in sorted(want, key=str):
+            if k not in got_keys:
+                mine.append(("unit-missing", "unit %s/%s was used by this render (its text is on the page) but the script does not list it" % k))
+        for k in sorted(set(got_keys), key=str):
+            if k not in want:
+                mine.append(("unit-extra", "the script lists unit %s/%s, which this render did not use" % k))
+            if got_keys.count(k) > 1:
+                mine.append(("unit-twice", "the script lists unit %s/%s %d times" % (k + (got_keys.count(k),))))
+        for u in ld:
+            k = (u["locale"], u["id"])
+            if k in want and u["values"] != want[k]:
+                mine.append(("wrong-strings", "unit %s/%s is listed with strings that are not the strings of its locale file" % k))
+            if k in memo and memo[k] != u["values"]:
+                mine.append(("unit-differs-between-renders", "unit %s/%s had other strings in an earlier render" % k))
+            memo.setdefault(k, u["values"])
+    if bool(mine) == bool(m["spec_ok_impl"]):
+        raise HarnessError("Spec.embedOk (%s) and the comparison in the check (%s) disagree on %s" % (m["spec_ok_impl"], mine, json.dumps(out)))
+    probs += mine
+    # what the accessors returned / what the page shows
+    shown = page_texts(rr["html"], len(accesses))
+    listed = {(u["locale"], u["id"]): u["values"] for u in (ld or [])}
+    if len(rr["texts"]) != len(accesses):
+        raise HarnessError("harness logged %d texts for %d accesses" % (len(rr["texts"]), len(accesses)))
+    for i, (a, t, sh) in enumerate(zip(accesses, rr["texts"], shown)):
+        f = files[(a["locale"], a["ns"])]
+        if sh is None or (a["how"] in EAGER and sh != t) or (a["how"] not in EAGER and t is not None):
+            raise HarnessError("access %d: page shows %r, accessor returned %r: %s" % (i, sh, t, json.dumps(rr["html"])))
+        if sh != f["text"]:
+            probs.append(("accessor-text", "access %d (%s of %s/%s) yields %r, the locale file says %r" % (i, a["how"], f["locale"], f["id"], sh, f["text"])))
+        k = (f["locale"], f["id"])
+        if k in listed and sh not in listed[k]:
+            probs.append(("text-not-in-unit", "access %d (%s of %s/%s) shows %r, which is not among the strings the script lists for that unit" % (i, a["how"], f["locale"], f["id"], sh)))
+    model_bad = None
+    if not probs:
+        if not m["model_eq_impl"]:
+            model_bad = "to_array"
+        elif len(m["registered"]) != len(want):
+            model_bad = "register"
+    return probs, model_bad
+
+
+def run_real(binr, files, cases):
+    impl = run_lines_resilient(binr, [{"op": "render_real", "renders": c["renders"]} for c in cases])
+    lreqs, idx = [], []
+    for ci, (c, r) in enumerate(zip(cases, impl)):
+        if "renders" not in r:
+            continue
+        for ri, rr in enumerate(r["renders"]):
+            if len(rr["scripts"]) == 1:
+                lreqs.append({"op": "escape.embed", "hist": real_touched(files, c["renders"][ri]), "impl": rr["scripts"][0]})
+                idx.append((ci, ri))
+    return impl, dict(zip(idx, lean_driver(lreqs)))
+
+
+def real_outcomes(binr, files, case):
+    """[(render index, problems, model_bad, page, lean verdict)] of one request run in a process of its own; None = panic"""
+    impl, model = run_real(binr, files, [case])
+    if "renders" not in impl[0]:
+        return None, impl[0]
+    memo, out = {}, []
+    for ri, rr in enumerate(impl[0]["renders"]):
+        probs, mb = judge_real(files, case, ri, rr, model.get((0, ri)), memo)
+        out.append((ri, probs, mb, rr, model.get((0, ri))))
+    return out, impl[0]
+
+
+def real_payload(files, case, ri, probs, rr, m):
+    return {"case": case, "render": ri, "accesses_of_that_render": case["renders"][ri],
+            "touched_units": real_touched(files, case["renders"][ri]),
+            "got_script": rr["scripts"], "got_html": rr["html"], "accessor_texts": rr["texts"], "serde_json": rr["serde"],
+            "spec_decode": None if m is None else m["spec_decode_impl"],
+            "expected_by_spec": "one script-safe <script> decoding to exactly the touched units, each once, with the strings of its locale file"
+                                + ("" if m is None else "; the model writes " + m["model"]),
+            "why": [w for _, w in probs], "all_signatures": ["embed:real-render-" + s for s, _ in probs],
+            "harness": "runtime_dyn_h render_real (all renders of `case` in one fresh process, in order)"}
+
+
+def ok_real_shape(c):
+    return (isinstance(c, dict) and c.get("real") is True and isinstance(c.get("renders"), list) and len(c["renders"]) >= 1
+            and all(isinstance(r, list) and all(isinstance(a, dict) and a.get("ns") in (0, 1, 2) and a.get("locale") in (0, 1, 2)
+                                                 and a.get("how") in HOWS and len(a) == 3 for a in r) for r in c["renders"]))
+
+
+def shrink_real(binr, files, case, sig):
+    def first_failing(c):
+        try:
+            outs, raw = real_outcomes(binr, files, c)
+        except HarnessError:
+            return None
+        if outs is None:
+            return (0, [("panics", "the render panics or crashes: " + json.dumps(raw)[:300])], {"scripts": [], "html": None, "texts": None, "serde": None}, None) \
+                if sig == "embed:real-render-panics" else None
+        for (ri, probs, _, rr, m) in outs:
+            if any("embed:real-render-" + s == sig for s, _ in probs):
+                return (ri, probs, rr, m)
+        return None
+    small = shrink(case, lambda c: ok_real_shape(c) and first_failing(c) is not None, max_steps=120)
+    return small, first_failing(small)
+
+
+def check_real(ctx, binr, files, cases, count=True):
+    """all requests go to one harness process, one after the other; a failing request is re-run alone (fresh process) and shrunk"""
+    impl, model = run_real(binr, files, cases)
+    memo = {}
+    mism = 0
+    for ci, (c, r) in enumerate(zip(cases, impl)):
+        failing = []
+        if "renders" not in r:
+            failing.append("embed:real-render-panics")
+        else:
+            if count:
+                ctx.count("real_requests")
+            for ri, rr in enumerate(r["renders"]):
+                m = model.get((ci, ri))
+                probs, model_bad = judge_real(files, c, ri, rr, m, memo)
+                acc = c["renders"][ri]
+                if count:
+                    units = {(a["locale"], a["ns"]) for a in acc}
+                    earlier = {(a["locale"], a["ns"]) for rd in c["renders"][:ri] for a in rd}
+                    ctx.seen({"real": c["renders"][:ri + 1]}, nontrivial=bool(units))
+                    ctx.count("real_renders")
+                    ctx.count("real_render_units=%d" % len(units))
+                    for a in acc:
+                        ctx.count("real_access:" + a["how"])
+                    if units & earlier:
+                        ctx.count("real_render_repeating_a_unit_of_an_earlier_render")
+                    if not units:
+                        ctx.count("real_render_touching_nothing")
+                    for u in units:
+                        kinds = {a["how"] in EAGER for a in acc if (a["locale"], a["ns"]) == u}
+                        ctx.count("real_unit_touched_" + ("eagerly_and_reactively" if len(kinds) == 2 else "only_eagerly" if True in kinds else "only_reactively"))
+                    if m is not None:
+                        ctx.count("real_strings_embedded", sum(len(u["values"]) for u in (m["spec_decode_impl"] or [])))
+                    if ri == 1 and ci % 50 == 0 and units:
+                        ctx.sample({"real_renders": c["renders"][:2], "script_of_render_1": rr["scripts"]}, limit=8)
+                for s, _ in probs:
+                    if "embed:real-render-" + s not in failing:
+                        failing.append("embed:real-render-" + s)
+                if not probs and model_bad:
+                    mism += 1
+                    if not any(b["name"] == "R/real-render:" + model_bad for b in ctx.broken):
+                        ctx.broken.append({"kind": "correspondence", "name": "R/real-render:" + model_bad,
+                                           "detail": {"case": c, "render": ri, "impl": rr, "model": m}})
+        for sig in failing:
+            if any(v["sig"] == sig for v in ctx.violations) or any(k["sig"] == sig for k in ctx.known):
+                continue
+            small, f = shrink_real(binr, files, c, sig)
+            if f is None:
+                # fails only after the earlier requests of this process: report the whole prefix as one request
+                pref = {"real": True, "renders": [rd for cc in cases[:ci + 1] for rd in cc["renders"]]}
+                small, f = shrink_real(binr, files, pref, sig)
+            if f is None:
+                report_violation(ctx, sig, {"case": c, "why": "fails in the batch but not when re-run alone", "impl": r, "harness": "runtime_dyn_h render_real"})
+            else:
+                (ri, probs, rr, m) = f
+                report_violation(ctx, sig, real_payload(files, small, ri, probs, rr, m))
+    return mism
+
+
 def run(ctx):
     lean_check(ctx, "I18nVerif.Theorems.C17", "C17_")
     binr = cargo_build(ctx, "runtime_dyn_h")
@@ -230,6 +506,14 @@ def run(ctx):
         mism += check_cases(ctx, binr, names, cases[k:k + 5000])
     ctx.extra["impl_vs_model_mismatches"] = mism
     ctx.extra["cases"] = len(cases)
+    # real renders
+    files = real_files(names)
+    rcases = list(REAL_CORPUS) + [gen_real(rng) for _ in range(ctx.budget(3000, 30000))]
+    rmism = 0
+    for k in range(0, len(rcases), 3000):
+        rmism += check_real(ctx, binr, files, rcases[k:k + 3000])
+    ctx.extra["real_render_impl_vs_model_mismatches"] = rmism
+    ctx.extra["real_render_requests"] = len(rcases)
     ctx.assumptions += [
         "the browser's HTML tokenizer and JavaScript parser agree with Spec.scriptSafe / Spec.jsDecodeEmbedded on the scripts "
         "the latter accepts (the reader accepts a sub-language of JSON, itself a sub-language of ECMAScript expressions; "
@@ -239,8 +523,12 @@ def run(ctx):
         "locale names and translation-unit ids contain no quote, backslash, '<', control character, U+2028/U+2029 "
         "(language identifiers and Rust identifiers); `to_array` pushes them unescaped and the theorems assume it (UnitNamesOk)",
         "HashMap iteration order is arbitrary: the model renders the registered entries in the order observed in the implementation's output",
+        "real renders: a translation unit's strings are the values of its locale file in key order (plain strings only; the check "
+        "fails on the unchanged tree if this were not so); the page is rendered natively with `to_html()` under one fresh `Owner` per "
+        "render, not through a server integration (no streaming, no `<head>` injection); `<span id>` texts are read back with a regular "
+        "expression and `html.unescape`",
     ]
-    finish_broken(ctx, f"{len(cases)} render sets, impl vs spec on each render")
+    finish_broken(ctx, f"{len(cases)} render sets and {len(rcases)} real-render requests, impl vs spec on each render")
     write_evidence(ctx, RULE)
 
 
@@ -249,6 +537,9 @@ def replay(ctx, payload):
     if binr is None:
         raise HarnessError("harness does not build")
     names = get_names(ctx, binr)
-    check_cases(ctx, binr, names, [payload["case"]], count=False)
+    if payload["case"].get("real"):
+        check_real(ctx, binr, real_files(names), [payload["case"]], count=False)
+    else:
+        check_cases(ctx, binr, names, [payload["case"]], count=False)
     if not ctx.violations:
         print("replay: the case no longer fails")
